@@ -8,6 +8,7 @@ the packets before i, and the receiver must fail with an integrity/protocol erro
 stall (and then fail with ConnectionLost at EOF) with nothing further delivered.
 """
 
+import asyncio
 import json
 
 import asyncssh
@@ -299,6 +300,148 @@ def worker(job):
     return acc
 
 
+# ------------------------------------------------------------------ the receiving application uses the stream API
+def run_stream(cfg, d, i, fault, style, seed=0):
+    """Same fault catalogue, but the receiver reads through SSHReader: continuously ('blocked'), or only
+    after everything was delivered and the connection torn down ('busy': it was doing something else).
+    The sender never sends EOF, so the reader must see a prefix of the data and then an error --
+    never a clean end-of-file."""
+    cipher, mac, comp = cfg
+    loop = P.fresh(seed)
+    P.install_wire_labels()
+    bs = max(8, get_encryption_params(cipher.encode())[2])
+    msgs = payloads(bs, comp)
+    results = []
+    st = {}
+    gate = {}
+
+    async def consume(rd):
+        if style == 'busy':
+            gate['ev'] = asyncio.Event()
+            await gate['ev'].wait()
+        while True:
+            try:
+                data = await rd.read(1 << 16)
+            except Exception as exc:        # pylint: disable=broad-except
+                results.append(('exc', type(exc).__name__))
+                return
+            if not data:
+                results.append(('eof',))
+                return
+            results.append(('data', data))
+
+    async def handler(process):
+        if d == 'cs':
+            await consume(process.stdin)
+        else:
+            for m in msgs:
+                process.stdout.write(m)
+            await asyncio.sleep(10 ** 6)
+    algs = dict(encryption_algs=[cipher], compression_algs=[comp])
+    if mac:
+        algs['mac_algs'] = [mac]
+    try:
+        pair = P.Pair(loop, sopts=dict(encoding=None, process_factory=handler, **algs), copts=algs)
+        ed = Editor(d, i, fault)
+        task = None
+
+        async def app():
+            w, r, _e = await pair.c.open_session('x', encoding=None)
+            if d == 'cs':
+                for m in msgs:
+                    w.write(m)
+                await asyncio.sleep(10 ** 6)
+            else:
+                await consume(r)
+        steps = 0
+        eof_sent = False
+        while True:
+            loop.quiesce()
+            if task is None and pair.copt.waiter.done():
+                if pair.copt.waiter.exception() is None:
+                    task = loop.create_task(app())
+                    continue
+            progressed = False
+            for name, t in (('cs', pair.st), ('sc', pair.ct)):
+                if t.lost or t.closing or t.peer is None:
+                    continue
+                out = ed.next(name, t.peer.outq)
+                if out is None:
+                    continue
+                progressed = True
+                if out is EOF:
+                    loop.call_soon(loop._deliver_eof, t)
+                elif out:
+                    loop.inject(t, out)
+                loop.quiesce()
+            if not progressed:
+                if not eof_sent:
+                    eof_sent = True
+                    for t in (pair.st, pair.ct):
+                        if not t.lost and not t.closing:
+                            loop.call_soon(loop._deliver_eof, t)
+                    continue
+                break
+            steps += 1
+            if steps > 5000:
+                raise Livelock('too many deliveries')
+        if 'ev' in gate:
+            gate['ev'].set()
+        loop.quiesce()
+        return {'results': results, 'applied': ed.applied, 'data_before': ed.data_before, 'msgs': msgs,
+                'loop_exc': [repr(c.get('exception') or c.get('message'))[:200] for c in loop.unretrieved()]}
+    finally:
+        P.done(loop)
+
+
+def stream_worker(job):
+    cfg, tier = job
+    acc = core.Acc()
+    name = '%s/%s/%s' % cfg
+    bs = max(8, get_encryption_params(cfg[0].encode())[2])
+    for d in ('cs', 'sc'):
+        layout = probe_layout(cfg, d)
+        data_idx = [k for k, (lab, ln) in enumerate(layout) if lab in (94, 95)]
+        if not data_idx:
+            continue
+        for i in sorted({data_idx[0], data_idx[len(data_idx) // 2], data_idx[-1]}):
+            lab, ln = layout[i]
+            for fault in [('flip', 0, 7), ('flip', ln // 2, 1), ('flip', -1, 0), ('trunc', ln - 1), ('drop',), ('insert', 1), ('replace-other',)]:
+                for style in ('blocked', 'busy'):
+                    try:
+                        obs = run_stream(cfg, d, i, fault, style)
+                    except Livelock as exc:
+                        obs = None
+                        viol = [('livelock', str(exc))]
+                    if obs is not None:
+                        viol = []
+                        res = obs['results']
+                        got = b''.join(r[1] for r in res if r[0] == 'data')
+                        exp = b''.join(obs['msgs'][:obs['data_before']])
+                        if obs['applied']:
+                            if got != exp:
+                                viol.append(('stream-data', 'stream reader got %d bytes, %d bytes were sent in packets complete before the altered byte'
+                                             % (len(got), len(exp))))
+                            if not res or res[-1][0] == 'data':
+                                viol.append(('stream-reader-hangs', 'reader still waiting after the connection ended (results so far: %d)' % len(res)))
+                            elif res[-1][0] == 'eof':
+                                viol.append(('clean-eof-after-tamper', 'the %s reader was handed a clean end-of-file although the stream was cut by an '
+                                             'integrity failure (no EOF was ever sent)' % style))
+                            elif res[-1][1] not in GOOD_EXC and res[-1][1] not in ('BrokenPipeError',):
+                                viol.append(('wrong-error', 'stream reader got %s' % res[-1][1]))
+                        if obs['loop_exc']:
+                            viol.append(('loop-exception', obs['loop_exc'][0]))
+                    acc.add(core.digest(('stream', cfg, d, i, fault, style, repr(obs and [r[0] for r in obs['results']][-1:]))), transitions=1,
+                            sample={'config': name, 'direction': d, 'packet': i, 'fault': fault, 'reader': style,
+                                    'ends_with': obs and obs['results'][-1:] and obs['results'][-1][:2][-1] if obs and obs['results'] and obs['results'][-1][0] == 'exc' else None}
+                            if style == 'busy' and fault[0] == 'drop' and i == data_idx[-1] else None)
+                    for k, det in viol:
+                        acc.violation('tamper:%s:%s:%s:%s:%s' % (k, name, d, fault[0], style),
+                                      '%s; packet %d (type %s, %d bytes) fault %r' % (det, i, lab, ln, fault),
+                                      {'cfg': list(cfg), 'd': d, 'i': i, 'fault': list(fault), 'kind': 'stream', 'style': style})
+    return acc
+
+
 def probe_layout(cfg, d):
     """[(label, length)] of the encrypted packets of direction d in the unfaulted run"""
     class Rec(Editor):
@@ -341,12 +484,18 @@ def main(tier, seed):
         print('HARNESS-NONDETERMINISM')
         return 2
     acc = core.pmap(worker, core.rotate([(c, tier) for c in cfgs], seed), chunksize=2)
+    scfgs = [c for c in cfgs if c[2] == 'none' and (tier == 'thorough' or c[1] in (None, 'hmac-sha2-256', 'hmac-sha2-256-etm@openssh.com', 'umac-64@openssh.com'))]
+    if tier == 'quick':
+        scfgs = [c for c in scfgs if c[0] in ('chacha20-poly1305@openssh.com', 'aes128-gcm@openssh.com', 'aes128-ctr', 'aes256-cbc', '3des-cbc')]
+    acc.merge(core.pmap(stream_worker, [(c, tier) for c in scfgs]))
     rule = ('every negotiable cipher x MAC (AEAD ciphers once) x compression triple, each direction; '
             'target packets: first encrypted packet, first and last data packet (thorough: every packet); '
             'faults: bit flips at the boundaries of every region (length field all 8 bits of one byte, '
             'padding-length byte, body, padding, tag) (thorough: every byte), truncation after byte j, '
             'drop, duplicate, swap with next, insertion of 1/blocksize/packet-length zero bytes, splice of an '
-            'earlier packet of the same direction and of a packet of the other direction; distinct = '
+            'earlier packet of the same direction and of a packet of the other direction; the same with the receiver '
+            'reading through the stream API, blocked in a read or busy elsewhere until the connection is gone '
+            '(prefix then error, never a clean EOF); distinct = '
             'distinct (config, direction, packet, fault, outcome)')
     return core.finish(PROP, tier, seed, 'fault_enumeration', acc, t0, rule,
                        {'configs': len(cfgs)},
@@ -362,6 +511,13 @@ def replay(rep):
         acc = worker((cfg, 'quick'))
         print(json.dumps(acc.violations[:3], indent=1, default=repr))
         return 1 if acc.violations else 0
+    if r['kind'] == 'stream':
+        acc = stream_worker((cfg, 'quick'))
+        v = [x for x in acc.violations if x['replay'].get('style') == r.get('style') and x['replay'].get('d') == r['d']]
+        print(json.dumps(v[:3], indent=1, default=repr))
+        if v:
+            print('VIOLATION property=%s replay=(given)' % PROP)
+        return 1 if v else 0
     fault = tuple(r['fault'])
     obs = run(cfg, r['d'], r['i'], fault)
     v = judge(cfg, r['d'], r['i'], fault, obs)
